@@ -73,7 +73,7 @@ Definition order_conventional (cfg : config) : bool :=
 (* ---- correspondence entry points *)
 Definition nth_topo (topos : list (list atom)) (i : nat) : list atom := nth i topos [].
 
-(* code: 1 = differs from the as-found model, 2 = differs from the model with the repaired single-literal
+(* code: 32 = the as-found model rejects the string; 1 = differs from the as-found model, 2 = differs from the model with the repaired single-literal
    test, 4 = differs from both under the conventional operator order, 8 = the model has no answer
    (string or pattern outside the modelled domain) *)
 Definition out_of_model (o : outcome) : bool :=
@@ -99,6 +99,7 @@ Definition case_code (cfg : config) (topos : list (list atom)) (c : nat * string
       (if outcome_eqb a impl then 0 else 1) + (if outcome_eqb b impl then 0 else 2)
       + (if outcome_eqb c1 impl || outcome_eqb c2 impl then 0 else 4)
       + (if out_of_model a || out_of_model c1 then 8 else 0)
+      + (match a with Rejected => 32 | _ => 0 end)
   | _, _ => 15
   end.
 
